@@ -4,6 +4,7 @@ pub mod c10;
 pub mod c11;
 pub mod c12;
 pub mod c13;
+pub mod c14;
 pub mod c24;
 
 use crate::engine::Engine;
@@ -16,6 +17,7 @@ pub fn dispatch(id: &str) -> Option<fn(&mut Engine)> {
         "C11" => Some(c11::run),
         "C12" => Some(c12::run),
         "C13" => Some(c13::run),
+        "C14" => Some(c14::run),
         "C24" => Some(c24::run),
         _ => None,
     }
